@@ -36,6 +36,64 @@ import (
 func init() {
 	register("C10", c10)
 	registerChild("c10", c10Child)
+	registerChild("c10-url", c10URLChild)
+}
+
+// c10URLText regenerates the idx-th hostile URL text (and parent) of the ASan part.
+func c10URLText(seed int64, idx int) (text, parent string) {
+	r := rand.New(rand.NewSource(vc.DeriveSeed(seed, "C10", "url", idx)))
+	switch r.Intn(4) {
+	case 0:
+		b := make([]byte, r.Intn(200))
+		r.Read(b)
+		text = string(b)
+	case 1:
+		text = genMutated(r)
+	default:
+		text = c10HostileText(r)
+	}
+	if r.Intn(2) == 0 {
+		parent = genWFAbsolute(r).String()
+		if r.Intn(4) == 0 {
+			parent = c10HostileText(r)
+		}
+	}
+	return
+}
+
+// c10URLChild: the cgo (C++) WHATWG URL parser behind NormalizeURL on hostile texts; meant for the
+// AddressSanitizer build, where a memory error is a process-fatal report on stderr.
+func c10URLChild(scPath string) int {
+	var sc c10Scenario
+	if err := readJSON(scPath, &sc); err != nil {
+		return 2
+	}
+	dir := os.Getenv("VZ_CHILD_DIR")
+	rep := newReport()
+	curPath := filepath.Join(dir, "current")
+	accepted := 0
+	for i := sc.Start; i < sc.End; i++ {
+		if i%64 == 0 { // the index file is rewritten every 64 inputs; a crash is attributed by re-running that window
+			os.WriteFile(curPath, []byte(strconv.Itoa(i)), 0o644)
+		}
+		text, parentText := c10URLText(sc.Seed, i)
+		var parent *models.URL
+		if parentText != "" {
+			parent = &models.URL{Raw: parentText}
+			if preprocessor.NormalizeURL(parent, nil) != nil {
+				parent = nil
+			}
+		}
+		u := &models.URL{Raw: text}
+		if preprocessor.NormalizeURL(u, parent) == nil {
+			_ = u.String()
+			accepted++
+		}
+		rep.Evaluations++
+	}
+	rep.event("url_texts_accepted", accepted)
+	rep.write(dir)
+	return 0
 }
 
 type c10Scenario struct {
@@ -591,7 +649,46 @@ func c10(r *vc.Run) int {
 			r.Note("worker %d stopped early after %d crashing/hanging inputs (%d hangs): inputs %d..%d not run", w, restarts, hangs, start, end)
 		}
 	})
+	// the C++ URL parser under AddressSanitizer
+	asanCases := 0
+	if bin := os.Getenv("VZ_BIN_ASAN"); bin != "" {
+		nURL := r.N(60000, 1200000)
+		parts := 6
+		var amu sync.Mutex
+		parallel(parts, parts, func(w int) {
+			start, end := w*nURL/parts, (w+1)*nURL/parts
+			for start < end {
+				sc := c10Scenario{Seed: r.Seed, Start: start, End: end}
+				dir := filepath.Join(r.Scratch, fmt.Sprintf("c10url-%d-%d", w, start))
+				res := runChild(bin, "c10-url", sc, dir, 20*time.Minute, "ASAN_OPTIONS=detect_leaks=0:abort_on_error=0:halt_on_error=1")
+				var rep childReport
+				if readJSON(filepath.Join(dir, "report.json"), &rep) == nil && rep.Done {
+					amu.Lock()
+					asanCases += rep.Evaluations
+					amu.Unlock()
+					break
+				}
+				curB, _ := os.ReadFile(filepath.Join(dir, "current"))
+				win, _ := strconv.Atoi(strings.TrimSpace(string(curB)))
+				kind := "crash"
+				if strings.Contains(res.Stderr, "AddressSanitizer") {
+					kind = "asan"
+				}
+				var texts []string
+				for k := win; k < win+64 && k < end; k++ {
+					t, p := c10URLText(r.Seed, k)
+					texts = append(texts, fmt.Sprintf("%q parent=%q", t, p))
+				}
+				r.Violation(kind+"/url-parser@"+crashSig(res.Stderr), fmt.Sprintf("NormalizeURL under AddressSanitizer died on one of the URL texts %d..%d: %s", win, win+63, truncate(tail(res.Stderr, 1500), 1500)), map[string]any{"window": texts})
+				amu.Lock()
+				asanCases += win - start
+				amu.Unlock()
+				start = win + 64
+			}
+		})
+	}
 	cov := map[string]any{
+		"url_texts_under_asan": asanCases,
 		"evaluations":          m.Evaluations,
 		"distinct_nontrivial":  len(m.Distinct),
 		"rule":                 "one evaluation = one hostile response (generated / mutated HTML, JSON, XML, RSS, sitemap, S3 listing, M3U8, PDF, nesting bombs, random bytes, site-specific JSON; arbitrary status, Content-Type, Link, Location, Server) served to the real preprocessor+postprocessor stages for generic and site-specific URLs, plus NormalizeURL on hostile texts and ProcessBody on failing readers; distinct = distinct input kinds (generator + mutation + header variation)",
@@ -607,7 +704,8 @@ func c10(r *vc.Run) int {
 	return r.Finish("exploration", cov, []string{
 		"a crash is any panic / fatal error in the child process (the stage workers have no recover, as in production)",
 		"'spins forever' = more than 20 s of CPU, or more than 2 GiB resident, on one input of at most 64 KiB, confirmed alone with 5x the CPU budget and 2x the memory (unless it is a listed finding); CPU time, not wall time",
-		"inputs are regenerable from (VERIF_SEED, index); coverage-guided fuzzing is not part of the quick tier",
+		"inputs are regenerable from (VERIF_SEED, index); no coverage-guided fuzzing (go test -fuzz wants to write its corpus into the package directory, which the overlay build does not have)",
+		"the cgo WHATWG URL parser behind NormalizeURL additionally runs on hostile URL texts in an AddressSanitizer build (-asan): a sanitizer report is process-fatal and counts as a crash",
 	}, 20)
 }
 
